@@ -105,6 +105,9 @@ pub fn build(code: u32, need_reply: bool, var: &str, v: u64, rng: &mut Rng) -> B
         5 => {
             let nmax = if rng.below(4) == 0 { 32 } else { 4 };
             let mut n = 1 + rng.below(nmax) as u32;
+            if var == "fixed" {
+                n = 2;
+            }
             let mut padding = 0u32;
             match rule {
                 "nregions0" => n = 0,
@@ -194,7 +197,7 @@ pub fn build(code: u32, need_reply: bool, var: &str, v: u64, rng: &mut Rng) -> B
         12 | 13 | 14 => {
             let index = rng.below(4);
             let mut val = index;
-            let mut with_fd = rng.below(3) != 0;
+            let mut with_fd = rng.below(3) != 0 || var == "fixed";
             if !with_fd {
                 val |= 0x100;
             }
@@ -228,6 +231,9 @@ pub fn build(code: u32, need_reply: bool, var: &str, v: u64, rng: &mut Rng) -> B
             let mut off = 0x100 * rng.below(8) as u32;
             let smax = if rng.below(3) == 0 { 0x1000 - off as u64 } else { 64 };
             let mut size = 1 + rng.below(smax) as u32;
+            if var == "fixed" {
+                size = 8;
+            }
             let mut flags = rng.below(4) as u32;
             let mut plen = size as usize;
             match rule {
